@@ -78,7 +78,8 @@ static void one(const Cfg &c,const std::string &x,bool scanner,bool outcomes){ c
 		std::string y2=xss::filter(y,c.rules,mt); if(y2!=y) bad("xss:not-idempotent","filter is not idempotent: "+vf::vis(y)+" -> "+vf::vis(y2),c,m,x);
 		{ std::string y3=xss::filter(b,e,c.rules,mt); if(y3!=y) bad("xss:overloads","filter(string) and filter(ptr) disagree",c,m,x); }
 		if(scanner){ std::string why=scan(c.spec,y); if(!why.empty()) bad("xss:scanner","filter output contains markup outside the white list ("+why+"): "+vf::vis(y),c,m,x); if(!vx&&y.find('<')!=std::string::npos) n_kept_markup++; }
-		if(outcomes) vf::outcome(c.spec.label+(m?"E":"R")+(vx?"v":"i")+y); } }
+		if(outcomes) vf::outcome(c.spec.label+(m?"E":"R")+(vx?"v":"i")+y);
+		if(outcomes&&!vx&&!y.empty()){ static uint64_t sc=0; if(vf::sample_tick(sc,7919)) vf::sample("{\"rules\":"+vf::jstr(c.spec.label)+",\"method\":"+(m?"\"escape_invalid\"":"\"remove_invalid\"")+",\"input\":"+vf::jstr(vf::vis(x))+",\"output\":"+vf::jstr(vf::vis(y))+"}"); } } }
 static void flush(){ vf::guard("inputs_valid",n_valid); vf::guard("inputs_filtered",n_filtered); vf::guard("filtered_outputs_keeping_markup",n_kept_markup); n_valid=n_filtered=n_kept_markup=0; }
 
 static std::vector<std::string> tokens(){ const char *t[]={"<a>","</a>","<b>","</b>","<i>","<br>","<br/>","<BR>","<a href='x'>","<a href=\"javascript:x\">","<a href='http://h/p?q&amp;r'>","<a onclick='x'>","<img src='x' src='y'>","<input checked>","<x>","<!--c-->","<!--<-->","&amp;","&#60;","&#x1;","&bogus;","&","<",">","t","\""}; return std::vector<std::string>(t,t+26); }
